@@ -247,7 +247,7 @@ pub fn main(args: &Args) -> Report {
     });
     out.merge(o3);
     // random pairs
-    let blocks = if thorough { 4000 } else { 160 };
+    let blocks = if thorough { 20_000 } else { 160 };
     let (o4, _) = par_cases(blocks, threads(), None, |b| {
         let mut rng = Rng::derive(seed, b as u64);
         let mut o = CaseOut::default();
